@@ -42,7 +42,8 @@ class Check:
     shrink_runs = 60
     shrink_wall_s = 500.0
     rule = ('scenario = generated C project (generated headers via custom_target incl. chains through other outputs, depends:, depend_files:, '
-            'configure_file, multi-output custom targets indexed with [i], generator(), static/shared/both libraries with link_with/link_whole, '
+            'configure_file, multi-output custom targets indexed with [i], generator() for sources and for headers that transitively linked consumers '
+            'include from the private directory, static/shared/both libraries (also install: true) with link_with/link_whole, '
             'declare_dependency(sources:), a custom target running a built executable, subdirs, a subproject; default_library and unity varied) '
             'configured with the real ninja backend; the manifest is executed under several schedules (declaration order, reverse, '
             'consumers-first, generators-last, seeded random) and each edge is replayed hermetically. Non-trivial: the graph has >=1 generated '
@@ -253,7 +254,7 @@ class Check:
                 c = copy.deepcopy(sc)
                 c['spec']['ents'][i]['subp'] = False
                 yield c
-            for key in ('uses', 'link_with', 'link_whole', 'deps', 'pairs', 'pair_hdr_only', 'gsrcs', 'inputs', 'depends', 'hdrs'):
+            for key in ('uses', 'link_with', 'link_whole', 'deps', 'pairs', 'pair_hdr_only', 'gsrcs', 'inputs', 'depends', 'hdrs', 'ghdr_of'):
                 for v in list(e.get(key) or []):
                     c = copy.deepcopy(sc)
                     c['spec']['ents'][i][key].remove(v)
